@@ -51,9 +51,13 @@ const (
 	kWGAdd
 	kYield
 	kFinish
+	kChanSend
+	kChanRecv
+	kChanClose
+	kChanMake
 )
 
-var kindNames = [...]string{"?", "start", "lock", "unlock", "rlock", "runlock", "once", "oncedone", "poolget", "poolput", "os", "go", "wgwait", "wgadd", "yield", "finish"}
+var kindNames = [...]string{"?", "start", "lock", "unlock", "rlock", "runlock", "once", "oncedone", "poolget", "poolput", "os", "go", "wgwait", "wgadd", "yield", "finish", "chansend", "chanrecv", "chanclose", "chanmake"}
 
 type taskSlot struct {
 	wake  uint32 // futex word
@@ -78,6 +82,14 @@ type onceSlot struct {
 	owner int32 // task id+1 while inside f, 0 otherwise
 	_     int32
 }
+
+// closedSlot: a channel of the code under test that has been closed (everything else about a
+// channel is read from the channel itself when a decision is taken)
+type closedSlot struct {
+	addr uint64
+}
+
+const maxClosed = 1 << 8
 
 type wgSlot struct {
 	addr  uint64
@@ -125,6 +137,8 @@ type world struct {
 	locks [maxLocks]lockSlot
 	onces [maxOnces]onceSlot
 	wgs   [maxWGs]wgSlot
+	closed [maxClosed]closedSlot
+	nclosed uint32
 	log   [logCap]uint8
 	poolLog [1 << 16]uint8
 	sw    [switchCap]uint64 // task<<32 | site
